@@ -525,7 +525,15 @@ def as_completed(
             f'Worker {task.server_name} disconnected.',
         )
         assert task.state is not None
-        task.state.set_exception(TimeoutError(f'{task.server_name} timeout.'))
+        try:
+          task.state.set_exception(
+              TimeoutError(f'{task.server_name} timeout.')
+          )
+        except futures.InvalidStateError:
+          # The call completed after the `done()` check above, handle its
+          # outcome in the next round instead of retrying it.
+          still_running.append(task)
+          continue
         tasks.append(task.set(_exc=None))
       else:
         still_running.append(task)
